@@ -4,7 +4,7 @@ Helper lemmas are in Proofs/C04*.  Every theorem is about Model/C04 (host) and S
 constants, formats, slice lengths and reply-routing mechanism are regenerated from /repo (Gen/C04).
 `S2F` is CPython's `float(str)` (only reached when a *string* is passed for a float-typed parameter).
 -/
-import CfVerif.Proofs.C04Nest
+import CfVerif.Proofs.C04Sess
 namespace CfVerif.C04
 open CfVerif
 
@@ -649,5 +649,69 @@ example : setValue (fun _ => .error .other) exHost [1, 2] (.int (-2)) false =
 example : setValue (fun _ => .error .other) exHost [1, 2] (.int 32768) false = (exHost, [.raised .structError]) := by decide
 example : setValue (fun _ => .error .other) exHost [2, 1] (.int 1) false = (exHost, [.raised .attributeError]) := by decide
 example : setValue (fun _ => .error .other) exHost [7] (.int 1) false = (exHost, [.raised .keyError]) := by decide
+
+/-! ## Several connections of one Crazyflie object (`close_link` / `open_link` to a device with ANOTHER parameter table)
+
+The `Param` and `_ParamUpdater` objects outlive a connection.  Tie A pins ALL their attributes and what the two reset points do;
+the model's `Host.reconnect` keeps exactly what the code keeps. -/
+
+/-- every attribute of `Param` and of `_ParamUpdater`, what `_connection_requested` / `_disconnected` / `close()` reset, and that
+`_param_updated` finds the element in the CURRENT table and reads no other state: the per-connection attributes (`toc`, `values`,
+`is_updated`, `_initialized`, `_useV2`) are reset or recomputed for every connection, the others are the callbacks registered by
+name, the objects themselves, and the updater's `_lock_pattern` / `_useV2` (`Host.reconnect`) -/
+theorem gen_session_state :
+    Gen.C04.paramAttrs = ["_initialized", "_useV2", "all_update_callback", "all_updated", "cf", "group_update_callbacks", "is_updated",
+      "param_update_callbacks", "param_updater", "toc", "values"] ∧
+    Gen.C04.updatedElement = ["self.toc.get_element_by_id(var_id)"] ∧
+    Gen.C04.updatedReads = ["_check_if_all_updated", "_initialized", "_useV2", "all_update_callback", "all_updated", "cf",
+      "group_update_callbacks", "is_updated", "param_update_callbacks", "toc", "values"] ∧
+    Gen.C04.updatedStores = ["is_updated"] ∧
+    Gen.C04.connReqStores = ["self.is_updated = False", "self.toc = Toc()", "self.values = {}"] ∧
+    Gen.C04.connReqCalls = ["self._initialized.clear"] ∧
+    Gen.C04.disconnStores = ["self.toc = Toc()", "self.values = {}"] ∧ Gen.C04.disconnCalls = ["self.param_updater.close"] ∧
+    Gen.C04.updaterAttrs = ["_lock_pattern", "_should_close", "_useV2", "cf", "daemon", "request_queue", "updated_callback", "wait_lock"] ∧
+    Gen.C04.updaterCloseStores = [] ∧ Gen.C04.updaterCloseCalls = ["self.request_queue.get", "self.wait_lock.release"] :=
+  ⟨rfl, rfl, rfl, rfl, rfl, rfl, rfl, rfl, rfl, rfl, rfl⟩
+
+/-- NO LEAK between connections: what a value packet (fetch reply, write answer, value-updated notification) makes the library
+decode, cache and report after a reconnection is the same whatever the earlier connections were - their tables, cached values,
+requests; it is determined by the NEW table and the callbacks registered by name -/
+theorem reconnect_forgets_previous_connections (h1 h2 : Host) (hn : h1.nameCbs = h2.nameCbs) (hg : h1.groupCbs = h2.groupCbs)
+    (ha : h1.allCbs = h2.allCbs) (toc : List Elem) (v2 : Bool) (p : Pkt) :
+    (paramUpdated (h1.reconnect toc v2) p).map (fun r => (r.1.valueView, r.2)) =
+      (paramUpdated (h2.reconnect toc v2) p).map (fun r => (r.1.valueView, r.2)) :=
+  reconnect_no_leak h1 h2 hn hg ha toc v2 p
+
+/-- a connection closed while nothing is outstanding leaves the objects ready: the next connection starts `Idle` for ITS device -/
+theorem next_connection_starts_idle {s : Sys} (h : s.Idle) (toc : List Elem) (d : Dev) (hv : d.v2 = s.dev.v2) :
+    (s.reconnect toc d).Idle := reconnect_idle h toc d hv
+
+/-- the history space with reconnections: in every life of one object - any number of connections, each to a device with its own
+table and values, each closed while nothing was outstanding - EVERY connection is a history from an `Idle` state of its own
+device; so wire order = queue order, one request outstanding, k-th reply answers k-th request hold on every connection (as do
+`reply_attribution_partial`, `answered_requests_have_no_handler`, `set_roundtrip`, `read_roundtrip_sys`, ... which are stated for
+such histories) -/
+theorem every_connection_fifo (s0 : Sys) (h0 : s0.Idle) (evs : List Ev) (rest : List (List Elem × Dev × List Ev))
+    (l : List (Sys × Sys × List Out)) (hrun : Sys.runLife S2F Variant.code s0 evs rest = some l)
+    (hgen : ∀ x ∈ rest, x.2.1.v2 = s0.dev.v2) (hclosed : ∀ x ∈ l.dropLast, x.2.1.Idle) :
+    ∀ x ∈ l, x.1.Idle ∧
+      txsOf x.2.2 ++ x.2.1.host.cur.toList ++ x.2.1.host.queue = (enqsOf x.2.2).map Prod.fst ∧
+      (altRun x.1.dev.v2 none (obsOf x.2.2)).isSome = true ∧
+      answersZip x.1.dev.v2 (txsOf x.2.2) (solicited (rxdsOf x.2.2)) = true := by
+  intro x hx
+  have hc := code_variant
+  obtain ⟨hi, evs', hr⟩ := life_sessions S2F Variant.code (by rw [hc]) (by rw [hc]) rest s0 evs l h0 hrun hgen hclosed x hx
+  exact ⟨hi, one_outstanding_fifo S2F x.1 hi evs' x.2.1 x.2.2 hr⟩
+
+/-- non-vacuity: the same parameter (group 1, name 0) is uint8 at index 0 on the first device and int16 at index 2 on the second;
+the read on each connection reports that connection's value in that connection's type -/
+def cxToc2 : List Elem := [⟨0, 1, 1, 8, false, true⟩, ⟨1, 1, 2, 8, false, true⟩, ⟨2, 1, 0, 1, false, true⟩]
+def cxDev2 : Dev := { v2 := true, params := [⟨8, [7], false, true, [10], none⟩, ⟨8, [9], false, true, [20], none⟩, ⟨1, [0xFE, 0xFF], false, true, [0, 0], none⟩] }
+def readP0 : List Ev := [.api 0 (.requestUpdate [1, 0]), .updGet, .updSend, .deliver]
+example : ((Sys.runLife noS2F Variant.code cxSys7 readP0 [(cxToc2, cxDev2, readP0)]).map fun l =>
+      l.map fun x => (txsOf x.2.2, updatesOf x.2.2)) =
+    some [([{ chan := 1, data := [0, 0] }], [.update 7 [1, 0] (.int 1)]), ([{ chan := 1, data := [2, 0] }], [.update 7 [1, 0] (.int (-2))])] := by
+  decide +kernel
+
 
 end CfVerif.C04
